@@ -13,7 +13,7 @@ LEVEL = "exploration"
 ALPHABET = ["a", "Z", "0", "-", "_", "/", ":", " ", "\n", "\t", ".", "é"]
 RULE = ("(enumerated) every string of length <= 5 (thorough: <= 6) over the 12-symbol alphabet "
         "{a Z 0 - _ / : space \\n \\t . e-acute} fed to is_name_valid, from_str(require_prefix=True/False) and "
-        "from_relative_str, compared with a hand-written character-level recogniser of the documented grammar (one "
+        "from_relative_str, plus a character-class sweep (every ASCII code point and 14 non-ASCII characters inserted at / substituted into every position of 8 template strings), compared with a hand-written character-level recogniser of the documented grammar (one "
         "don't-care class: a single trailing '/' after the last path segment); accepted strings are round-tripped "
         "through str(). (generated) valid identifiers of up to 5 segments x 12 chars with 1-3 random edits, sets of "
         "(identifier, version) pairs for injectivity of output directories, ':name' deps resolved through a real COND "
@@ -22,7 +22,7 @@ RULE = ("(enumerated) every string of length <= 5 (thorough: <= 6) over the 12-s
         "enumerated strings are distinct by construction.")
 ASSUMPTIONS = ["the documented grammar is: name = [A-Za-z0-9_-]+ ; identifier = optional //, segments joined by single '/', ':' name"]
 ESSENTIAL = ["trailing_newline", "leading_space", "double_slash_inside", "empty_segment", "no_prefix", "root_package",
-             "generated_valid", "generated_mutated", "injectivity_set", "relative_dep_in_cond_file", "cli_where"]
+             "generated_valid", "generated_mutated", "injectivity_set", "relative_dep_in_cond_file", "cli_where", "charclass_sweep"]
 EXHAUSTIVE = {"quick": "all strings of length <= 5 over the 12-symbol alphabet (271,453 strings x 4 entry points)",
               "thorough": "all strings of length <= 6 over the 12-symbol alphabet (3,257,437 strings x 4 entry points)"}
 TECHNIQUE = "exhaustive small-scope enumeration of strings against a hand-written recogniser + Hypothesis-generated long identifiers, round-trip and injectivity checks"
@@ -123,6 +123,39 @@ def enumerate_cases(tier, w, nworkers):
     for i, pre in enumerate(prefixes):
         if i % nworkers == w:
             yield {"enum_prefix": pre, "maxlen": maxlen}
+    # character-class sweep: every ASCII code point (and a few others) inserted at / substituted into
+    # every position of template strings of each form
+    for j, tpl in enumerate(SWEEP_TEMPLATES):
+        if j % nworkers == w:
+            yield {"sweep_template": tpl}
+
+
+SWEEP_TEMPLATES = ["ab", "a-_9", "//ab/cd:ef", "//:ab", ":ab", "ab/cd:ef", "//a/b/c:d", "ab:cd"]
+SWEEP_CHARS = [chr(c) for c in range(0, 128)] + ["\x7f", "\x80", "\xa0", "é", "ß", "İ", "а", "０", "Ａ", "²", "\u200b", "\u2028", "\ud7ff", "\U0001f600"]
+
+
+def run_sweep(case):
+    tpl = case["sweep_template"]
+    v, labels = [], set()
+    n = nt = 0
+    for ch in SWEEP_CHARS:
+        for pos in range(len(tpl) + 1):
+            for s in ([tpl[:pos] + ch + tpl[pos:]] + ([tpl[:pos] + ch + tpl[pos + 1:]] if pos < len(tpl) else [])):
+                n += 1
+                check_string(s, v, labels)
+                if _boundary(s):
+                    nt += 1
+        if len(v) > 40:
+            break
+    seen, uv = set(), []
+    for sig, text in v:
+        if sig not in seen:
+            seen.add(sig)
+            uv.append((sig, text))
+    oc = Outcome(uv, ["charclass_sweep"], False, {"template": tpl, "strings": n})
+    oc.evals = n
+    oc.nontrivial_n = nt
+    return oc
 
 
 def run_enum(case):
@@ -223,6 +256,8 @@ def examples(tier):
 def run_case(case):
     if "enum_prefix" in case:
         return run_enum(case)
+    if "sweep_template" in case:
+        return run_sweep(case)
     TI, Invalid = _api()
     kind = case["kind"]
     v, labels = [], []
